@@ -27,6 +27,7 @@
  * Modes
  *   store_drv replay <script> <trace> <gc:0|1>           scripts exported by TLC
  *   store_drv chain  <script> <trace> <gc:0|1>           same, one heap for all
+ *   (optional 5th argument of replay: milliseconds a script's child may run, default 60000)
  *   store_drv random <seed> <steps> <trace> <gc:0|1> <maxlive> <profile>
  * gc = 0: collections only when the driver calls stoGc (StoCtl_GcLevel_Demand)
  * gc = 1: automatic collections inside stoAlloc as well.
@@ -61,6 +62,7 @@
 
 #define NOINLINE __attribute__((noinline))
 #define CHILD_TIMEOUT_MS 60000
+static long child_timeout_ms = CHILD_TIMEOUT_MS;
 
 /* ------------------------------------------------------------------ state */
 
@@ -71,6 +73,7 @@ struct blk {
 	int	nslots;
 	long	slot[MAXSLOTS];	/* target offsets, -1 = NULL */
 	int	alive;
+	int	raw;		/* the owner never wrote it (script command G): nothing to compare */
 };
 
 static struct blk  reg[MAXB];
@@ -133,7 +136,7 @@ static void out_kv(const char *k, long v)
 
 static void fault(int sig)
 {
-	outlen = 0;	/* drop the half-written event, if any */
+	while (outlen > 0 && outbuf[outlen - 1] != '\n') outlen--;	/* drop the half-written event, if any */
 	out_str("{\"ev\":\"Fault\",\"sig\":"); out_long(sig);
 	out_str(",\"during\":\""); out_str(during); out_str("\"}\n");
 	out_flush();
@@ -180,15 +183,56 @@ static inline unsigned char pat(int tag, long i)
 	return (unsigned char) (1 + ((unsigned long) tag * 7 + i * 13 + (i >> 8) * 5 + (i >> 16) * 3) % 253);
 }
 
+/*
+ * Blocks of a kilobyte and more are written and compared through reference images of the pattern
+ * (one per pattern phase, filled on demand): histories with hundreds of large live blocks compare tens
+ * of megabytes after every step.  All images live in ONE mapping that is read-only except while an
+ * image is being extended: the collector scans writable mappings only (and os_unix.c's table of them
+ * has room for 30), so the images are neither scanned nor counted.
+ */
+#define FASTMIN 1024
+#define REFMAX  (1L << 20)
+static unsigned char *refbase;
+static long           reflen[253];
+
+static NOINLINE unsigned char *ref_for(int tag, long len)
+{
+	int ph = (int) (((unsigned long) tag * 7) % 253);
+	unsigned char *m;
+	if (len > REFMAX) return 0;
+	if (!refbase) {
+		refbase = (unsigned char *) mmap(0, 253 * REFMAX, PROT_READ, MAP_PRIVATE | MAP_ANONYMOUS | MAP_NORESERVE, -1, 0);
+		if (refbase == (unsigned char *) MAP_FAILED) _exit(9);
+	}
+	m = refbase + ph * REFMAX;
+	if (reflen[ph] < len) {
+		long n = (len + (1L << 16)) & ~((1L << 16) - 1), i;
+		if (n > REFMAX) n = REFMAX;
+		if (mprotect(m, n, PROT_READ | PROT_WRITE)) _exit(9);
+		for (i = reflen[ph]; i < n; i++) m[i] = pat(tag, i);
+		if (mprotect(m, n, PROT_READ)) _exit(9);
+		reflen[ph] = n;
+	}
+	return m;
+}
+
 static NOINLINE void fill_block(int b)
 {
 	unsigned char *p = (unsigned char *) (heapbase + reg[b].off);
 	long i, s1 = reg[b].nslots ? SLOTBASE + (long) reg[b].nslots * SLOTBYTES : 0;
+	if (reg[b].raw) { p = 0; return; }
 	for (i = 0; i < reg[b].nslots; i++) {
 		long t = reg[b].slot[i];
 		*(void **) (p + SLOTBASE + i * SLOTBYTES) = t < 0 ? (void *) 0 : (void *) (heapbase + t);
 	}
-	for (i = 0; i < reg[b].size; i++) if (i < SLOTBASE || i >= s1) p[i] = pat(reg[b].tag, i);
+	unsigned char *r = reg[b].size >= FASTMIN ? ref_for(reg[b].tag, reg[b].size) : 0;
+	if (r) {
+		memcpy(p, r, SLOTBASE);
+		memcpy(p + (s1 ? s1 : SLOTBASE), r + (s1 ? s1 : SLOTBASE), reg[b].size - (s1 ? s1 : SLOTBASE));
+		r = 0;
+	}
+	else
+		for (i = 0; i < reg[b].size; i++) if (i < SLOTBASE || i >= s1) p[i] = pat(reg[b].tag, i);
 	p = 0;
 }
 
@@ -196,10 +240,18 @@ static NOINLINE void fill_block(int b)
 static NOINLINE int check_bytes(int b, unsigned char *p, long len)
 {
 	long i, s1 = reg[b].nslots ? SLOTBASE + (long) reg[b].nslots * SLOTBYTES : 0;
+	if (reg[b].raw) return 1;
 	for (i = 0; i < reg[b].nslots && SLOTBASE + (i + 1) * SLOTBYTES <= len; i++) {
 		long t = reg[b].slot[i];
 		void *want = t < 0 ? (void *) 0 : (void *) (heapbase + t);
 		if (*(void **) (p + SLOTBASE + i * SLOTBYTES) != want) return 0;
+	}
+	unsigned char *r = len >= FASTMIN ? ref_for(reg[b].tag, len) : 0;
+	if (r) {
+		long from = s1 ? s1 : SLOTBASE;
+		int ok = memcmp(p, r, SLOTBASE) == 0 && (len <= from || memcmp(p + from, r + from, len - from) == 0);
+		r = 0;
+		return ok;
 	}
 	for (i = 0; i < len; i++) if ((i < SLOTBASE || i >= s1) && p[i] != pat(reg[b].tag, i)) return 0;
 	return 1;
@@ -300,6 +352,8 @@ static int nlive(void)
 	return n;
 }
 
+static int raw_next;	/* the next block allocated is never written by its owner (script command G) */
+
 static NOINLINE void op_alloc(int b, int code, long n, int tag)
 {
 	long gc0 = gc_count;
@@ -318,6 +372,7 @@ static NOINLINE void op_alloc(int b, int code, long n, int tag)
 	reg[b].nslots = nslots_for(n);
 	for (int i = 0; i < MAXSLOTS; i++) reg[b].slot[i] = -1;
 	reg[b].alive = 1;
+	reg[b].raw = raw_next; raw_next = 0;
 	fill_block(b);
 	out_str("{\"ev\":\"Alloc\""); out_kv("code", code); out_kv("ocode", ocode); out_kv("n", n);
 	out_addr("pg", "off", off); out_kv("size", size); out_kv("tag", tag);
@@ -429,6 +484,48 @@ static NOINLINE void op_collect(void)
 	finish_event();
 }
 
+/*
+ * What the allocator itself reports about its housekeeping (stoShowDetail: the free tree's sizes and
+ * the page map), as a Note event: the number of distinct free mixed sizes, of free mixed pieces, and of
+ * pages used for B-tree nodes (T) and for size-list carriers (L).  Information only.
+ */
+static NOINLINE void op_note(void)
+{
+	static char notebuf[1 << 18];	/* no malloc here: libc would move the program break under the allocator */
+	char *buf = notebuf;
+	FILE *mem, *old = osStderr;
+	long keys = 0, pieces = 0, tpg = 0, lpg = 0;
+	during = "Note";
+	memset(notebuf, 0, sizeof notebuf);
+	mem = fmemopen(notebuf, sizeof notebuf - 1, "w");
+	if (!mem) return;
+	osStderr = mem;
+	stoShowDetail(0x20 | 0x40);	/* STO_SHOW_MIXED | STO_SHOW_PAGEMAP */
+	osStderr = old;
+	fclose(mem);
+	if (buf) {
+		char *q = strstr(buf, "Mixed-size free pieces:"), *e;
+		if (q && (q = strchr(q, '\n')) != 0) {
+			for (q++; *q && *q != '\n'; q++)
+				if (*q == 'x' && q > buf && q[-1] >= '0' && q[-1] <= '9') {
+					char *d = q - 1;
+					while (d > buf && d[-1] >= '0' && d[-1] <= '9') d--;
+					keys++; pieces += atol(d);
+				}
+		}
+		q = strstr(buf, "Page map:");
+		for (; q && (q = strchr(q, '\n')) != 0; ) {
+			q++;
+			if (*q != '|') break;
+			e = strstr(q, "K ");
+			if (!e) break;
+			for (e += 2; *e && *e != '\n'; e++) { if (*e == 'T') tpg++; else if (*e == 'L') lpg++; }
+		}
+	}
+	out_str("{\"ev\":\"Note\""); out_kv("freesizes", keys); out_kv("freepieces", pieces);
+	out_kv("treepages", tpg); out_kv("carrierpages", lpg); out_str("}\n");
+}
+
 static void op_config(void)
 {
 	out_str("{\"ev\":\"Config\",\"auto\":"); out_str(gcmode ? "true" : "false");
@@ -465,6 +562,8 @@ static void setup(void)
  * Script lines (blocks are named by script ids, sizes are already bytes):
  *   A id code n tag | F id | R id n | K id code | L id tag
  *   W id slot tgt delta | S root tgt delta | C | X (end of one script)
+ *   G id code n tag   as A, but the owner never writes or reads the block (a giant block that only
+ *                     shapes the heap)          N   Note event (the allocator's own housekeeping report)
  * Operations on blocks that are not (or no longer) allocated are skipped.
  */
 static const char *sc, *sc_end;
@@ -495,6 +594,10 @@ static NOINLINE int run_script(void)	/* returns 0 at end of input */
 		case 'A': a = sc_long(); b2 = sc_long(); c2 = sc_long(); d = sc_long();
 			if (a >= 0 && a < MAXB && !reg[a].alive) { if (a >= nreg) nreg = a + 1; op_alloc((int) a, (int) b2, c2, (int) d); }
 			break;
+		case 'G': a = sc_long(); b2 = sc_long(); c2 = sc_long(); d = sc_long();
+			if (a >= 0 && a < MAXB && !reg[a].alive) { if (a >= nreg) nreg = a + 1; raw_next = 1; op_alloc((int) a, (int) b2, c2, (int) d); }
+			break;
+		case 'N': op_note(); break;
 		case 'F': a = sc_long(); if (a < nreg && reg[a].alive) op_free((int) a); break;
 		case 'R': a = sc_long(); b2 = sc_long(); if (a < nreg && reg[a].alive) op_resize((int) a, b2); break;
 		case 'K': a = sc_long(); b2 = sc_long(); if (a < nreg && reg[a].alive) op_recode((int) a, (int) b2); break;
@@ -559,7 +662,7 @@ static NOINLINE int drive_replay(const char *script, int chain)
 			struct timespec ts = { 0, polls < 100 ? 100 * 1000 : 2 * 1000 * 1000 };
 			nanosleep(&ts, 0);
 			if (polls++ >= 100) waited_ms += 2;
-			if (waited_ms > CHILD_TIMEOUT_MS) {
+			if (waited_ms > child_timeout_ms) {
 				kill(pid, SIGKILL);
 				waitpid(pid, &status, 0);
 				hung = 1;
@@ -696,6 +799,7 @@ int main(int argc, char **argv)
 {
 	if (argc >= 5 && (!strcmp(argv[1], "replay") || !strcmp(argv[1], "chain"))) {
 		gcmode = atoi(argv[4]);
+		if (argc >= 6 && atol(argv[5]) > 0) child_timeout_ms = atol(argv[5]);
 		outfd = open(argv[3], O_WRONLY | O_CREAT | O_TRUNC | O_APPEND, 0644);
 		if (outfd < 0) return 2;
 		setup();
